@@ -6,6 +6,7 @@ import (
 	"context"
 	"encoding/json"
 	"fmt"
+	"errors"
 	"io"
 	"os"
 	"path/filepath"
@@ -37,11 +38,58 @@ type Case struct {
 	Sizes    []int  `json:"sizes"`
 	MaxInMem uint64 `json:"max_in_mem_log_size"`
 	Prepop   bool   `json:"target_prepopulated,omitempty"`
-	Corrupt  string `json:"corrupt,omitempty"`
-	J        int    `json:"j,omitempty"`
+	// AfterFailed: an interrupted restore of another image into the same table comes first
+	AfterFailed bool   `json:"after_interrupted_restore,omitempty"`
+	Corrupt     string `json:"corrupt,omitempty"`
+	J           int    `json:"j,omitempty"`
 }
 
 type viol struct{ sig, detail string }
+
+// failAfter hands out the first n reads of a stream (the snapshot file reader returns one record per
+// read) and then fails like a broken transport.
+type failAfter struct {
+	r io.Reader
+	n int
+}
+
+func (f *failAfter) Read(p []byte) (int, error) {
+	if f.n <= 0 {
+		return 0, errors.New("verif: transport broke while the stream was being read")
+	}
+	f.n--
+	return f.r.Read(p)
+}
+
+var (
+	oldImgOnce sync.Once
+	oldImgPath string
+	oldImgErr  error
+)
+
+// oldImage is the stream of a three-pair table whose keys occur in no other content of this check.
+func oldImage(e *engx.Engine) (string, error) {
+	oldImgOnce.Do(func() {
+		name := "oldimage"
+		if err := retryCAS(func() error { _, e2 := e.CreateTable(name); return e2 }); err != nil {
+			oldImgErr = err
+			return
+		}
+		if oldImgErr = e.WaitTable(name, 20*time.Second); oldImgErr != nil {
+			return
+		}
+		ctx, cancel := context.WithTimeout(context.Background(), 10*time.Second)
+		defer cancel()
+		for _, k := range []string{"old-image-1", "old-image-2", "old-image-3"} {
+			if _, err := e.Put(ctx, &regattapb.PutRequest{Table: []byte(name), Key: []byte(k), Value: []byte("from the interrupted restore")}); err != nil {
+				oldImgErr = err
+				return
+			}
+		}
+		oldImgPath, _, oldImgErr = streamOf(e, name)
+	})
+	return oldImgPath, oldImgErr
+}
 
 var seq atomic.Int64
 
@@ -211,6 +259,33 @@ func runManager(e *engx.Engine, c Case) (vs []viol, outcome string, inconclusive
 		}
 		cancel()
 	}
+	if c.AfterFailed {
+		// an earlier restore of another image into the same table breaks off after all its pairs
+		// were read (transport error before the end of the stream)
+		op, err := oldImage(e)
+		if err != nil {
+			return nil, "setup:" + err.Error(), true
+		}
+		of, err := snapshot.OpenFile(op)
+		if err != nil {
+			return nil, "setup:" + err.Error(), true
+		}
+		ferr, timedOut := withDeadline(60*time.Second, func() error {
+			return retryCAS(func() error {
+				if _, err := of.Seek(0, io.SeekStart); err != nil {
+					return err
+				}
+				return m.Restore(tgt, &failAfter{r: of, n: 3})
+			})
+		})
+		of.Close()
+		if timedOut {
+			return nil, "restore-deadline", true
+		}
+		if ferr == nil {
+			vs = append(vs, viol{"manager-restore/broken-stream-reported-as-success", fmt.Sprintf("sizes %v MaxInMemLogSize %d", c.Sizes, c.MaxInMem)})
+		}
+	}
 	sf, err := snapshot.OpenFile(path)
 	if err != nil {
 		return []viol{{"stream-file-error", err.Error()}}, "", false
@@ -235,8 +310,11 @@ func runManager(e *engx.Engine, c Case) (vs []viol, outcome string, inconclusive
 		return nil, "read-after-restore:" + err.Error(), true
 	}
 	tag := fmt.Sprintf("manager-restore(MaxInMemLogSize=%s)/", memClass(c.MaxInMem))
+	if c.AfterFailed {
+		tag = fmt.Sprintf("manager-restore-after-interrupted-restore(MaxInMemLogSize=%s)/", memClass(c.MaxInMem))
+	}
 	if !fsmx.EqualKVs(got, want) {
-		vs = append(vs, viol{tag + diffSig(got, want), fmt.Sprintf("sizes %v MaxInMemLogSize %d prepopulated %v: restored %s, captured %s", c.Sizes, c.MaxInMem, c.Prepop, kvsStr(got), kvsStr(want))})
+		vs = append(vs, viol{tag + diffSig(got, want), fmt.Sprintf("sizes %v MaxInMemLogSize %d prepopulated %v after interrupted restore %v: restored %s, captured %s", c.Sizes, c.MaxInMem, c.Prepop, c.AfterFailed, kvsStr(got), kvsStr(want))})
 	}
 	if li != declared {
 		vs = append(vs, viol{tag + "leader-index-not-the-declared-index", fmt.Sprintf("leader index %d, stream declares %d", li, declared)})
@@ -498,7 +576,7 @@ func Run(r *evid.Run) {
 		maxN = 5
 		mems = []uint64{0, 600, 700, 800, 1000, 2000, 6 << 20}
 	}
-	r.Rule(fmt.Sprintf("(manager) contents = every sequence of 0..%d pairs with value sizes from %v (every order) x MaxInMemLogSize in %v (settings under which dragonboat starves proposals are excluded by construction) x target {absent, pre-populated with other keys}: captured with the real SnapshotServer.Stream on a real engine, loaded with the real Manager.Restore/readIntoTable, read back with a linearizable full range: content must equal the captured content, leader index = declared index, shard id grows. (worker) the same contents through real gRPC -> real replication worker.recover() on follower engines with MaxInMemLogSize 0 and 6MiB. (backup) backup.Backup -> backup.Restore through real gRPC incl. a bit flip in the first/middle/last byte of the file (must be refused, table unchanged). Large values (64KiB, 2MiB) thorough only. Non-trivial: at least one pair; distinct = distinct (case, restored size) outcomes", maxN, classes, mems))
+	r.Rule(fmt.Sprintf("(manager) contents = every sequence of 0..%d pairs with value sizes from %v (every order) x MaxInMemLogSize in %v (settings under which dragonboat starves proposals are excluded by construction) x target {absent, pre-populated with other keys} x {directly, after a restore of another three-pair image into the same table that broke off with a transport error once its pairs had been read}: captured with the real SnapshotServer.Stream on a real engine, loaded with the real Manager.Restore/readIntoTable, read back with a linearizable full range: content must equal the captured content, leader index = declared index, shard id grows. (worker) the same contents through real gRPC -> real replication worker.recover() on follower engines with MaxInMemLogSize 0 and 6MiB. (backup) backup.Backup -> backup.Restore through real gRPC incl. a bit flip in the first/middle/last byte of the file (must be refused, table unchanged). Large values (64KiB, 2MiB) thorough only. Non-trivial: at least one pair; distinct = distinct (case, restored size) outcomes", maxN, classes, mems))
 	eng, err := engx.Start(engx.Opts{})
 	if err != nil {
 		fmt.Println("INFRA: engine start failed:", err)
@@ -522,6 +600,7 @@ func Run(r *evid.Run) {
 			cases = append(cases, Case{Kind: "manager", Sizes: s, MaxInMem: k})
 			if len(s) <= 2 {
 				cases = append(cases, Case{Kind: "manager", Sizes: s, MaxInMem: k, Prepop: true})
+				cases = append(cases, Case{Kind: "manager", Sizes: s, MaxInMem: k, AfterFailed: true}, Case{Kind: "manager", Sizes: s, MaxInMem: k, Prepop: true, AfterFailed: true})
 			}
 		}
 	}
